@@ -85,6 +85,9 @@ class Ctx(object):
         self.t0 = time.time()
         self.deadline = None
         self.witness_log = []
+        self._out_digest = hashlib.blake2b(digest_size=8)
+        self._out_n = 0
+        self._out_frozen = False
 
     # -- budget ---------------------------------------------------------
     def set_budget(self, seconds):
@@ -118,6 +121,17 @@ class Ctx(object):
     def sample(self, cls, case):
         if cls not in self.samples and len(self.samples) < 40:
             self.samples[cls] = jsonable(case)
+
+    def out(self, obj):
+        """Fold an observed (input, output) pair of the DETERMINISTIC part of the workload (directed + exhaustive layers of shard 0)
+        into a digest; the orchestrator compares it across interpreter modes (-X dev -bb, PYTHONHASHSEED=1/2): any difference means
+        an observable result depends on hash order or interpreter mode."""
+        if not self._out_frozen and self.shard == 0:
+            self._out_digest.update(repr(obj).encode("utf-8", "surrogatepass"))
+            self._out_n += 1
+
+    def freeze_outputs(self):
+        self._out_frozen = True
 
     def exhaustive_space(self, name, size):
         self.exhaustive[name] = self.exhaustive.get(name, 0) + size
@@ -160,6 +174,7 @@ class Ctx(object):
             "exhaustive": self.exhaustive,
             "notes": self.notes,
             "wall_s": round(time.time() - self.t0, 3),
+            "output_digest": [self._out_n, self._out_digest.hexdigest()] if self._out_n else None,
         }
         if extra:
             out.update(extra)
